@@ -1,9 +1,11 @@
 """C11 - Namespace behaves as a nested mapping addressed by dotted keys.
 
-The mapping algebra itself (heap-allocated, shared object graph, generator-based items()) is outside the verifier's
-reach and is checked by the bounded model-based harness.  Proved here, for all strings: the clash-mark inverse pair that
-makes method-name keys storable, and the guards of __contains__ / _parse_required_key.
-  add_clash_mark / del_clash_mark    del(add(k)) == k; add(k) is never a method name
+  add_clash_mark / del_clash_mark    for all strings: del(add(k)) == k; add(k) is never a method name; add is injective
+  every Namespace operation          contracts/ns_units.py: the real body of each method against the nested-dictionary view
+                                     (data structure against an abstract view; other methods used by contract), complete case
+                                     analysis over 9 stored trees x 16 keys x value kinds with symbolic leaf values
+  recreate_branches                  (clone, dict_to_namespace) unit shared with C08
+Histories (sequences of operations), sharing, equality and dict round trips are checked by the bounded model-based harness.
 """
 import z3
 
@@ -71,10 +73,17 @@ UNITS = [
 ]
 VERIFIED_CALLEES = ()
 LEVEL = "other"
-TECHNIQUE = "contract-based deductive verification of the clash-mark string helpers (z3/cvc5 strings) + bounded model-based run-time contract checking of every Namespace operation against a nested-dict reference"
-LEVEL_TEXT = "Proved for all strings: del_clash_mark(add_clash_mark(k)) == k, a marked name is never a method name, marking is injective on user keys - the mechanism that makes method-name keys storable. The mapping algebra itself (heap-allocated shared object graph, generator-based items) is outside the verifier's reach: bounded model-based checking of every Namespace operation against a nested-dict reference (all histories of length <= 4 over 75 operations, 1.9M evaluations)."
+TECHNIQUE = "contract-based deductive verification: clash-mark string helpers for all strings (z3/cvc5 strings); every Namespace method (real AST) against a nested-dictionary abstract view, other methods by contract, complete case analysis over stored trees x keys with symbolic leaves + bounded model-based run-time checking of operation histories against a nested-dict reference"
+LEVEL_TEXT = "Proved for all strings: del_clash_mark(add_clash_mark(k)) == k, a marked name is never a method name, marking is injective on user keys. Verified per method on the real body, against the nested-dictionary view and with the other methods used by contract: _parse_key, _parse_required_key, _create_nested_namespace, __getitem__, __setitem__, __setattr__, __delitem__, __contains__, get, pop, update, items, keys, values, as_dict, get_sorted_keys, __init__, recreate_branches (clone) - each for 9 stored trees (depth <= 3, method-name clashes, None leaf, empty branch, dict leaf) x 16 keys (present, absent, through a leaf, malformed) with symbolic leaf values; postconditions are over the whole view, so damage to other keys is seen. Not proved: arbitrary tree sizes (the case analysis is over listed shapes), histories, sharing, equality, dotted keys through plain dict values (known finding): bounded model-based checking of every operation against a nested-dict reference (all histories of length <= 4 over 75 operations)."
 LEVEL_NOTE = "under construction"
 EXPLANATION = "under construction"
 ASSUMPTIONS = []
 TRUSTED = []
 BOUNDED = [{"name": "namespace-vs-nested-dict-model", "script": "bounded/b11_namespace.py"}]
+
+
+from contracts.ns_units import units as _ns_units  # noqa: E402
+UNITS += _ns_units("C11")
+from contracts.c08 import UNITS as _C08_UNITS  # noqa: E402
+import dataclasses as _dc  # noqa: E402
+UNITS += [_dc.replace(u, prop="C11") for u in _C08_UNITS if u.target.endswith(":recreate_branches")]
